@@ -65,9 +65,9 @@ def root_case(rng, w, n, signed):
 
 BIN = ["nt_checked_add", "nt_checked_sub", "nt_checked_mul", "nt_wrapping_add", "nt_wrapping_sub", "nt_wrapping_mul",
        "nt_saturating_add", "nt_saturating_sub", "nt_overflowing_add", "nt_overflowing_sub"]
-DIVS = ["div_floor", "mod_floor", "div_rem", "div_mod_floor", "is_multiple_of", "nt_checked_div", "nt_checked_rem",
+DIVS = ["nt_div_floor", "nt_mod_floor", "nt_div_rem", "nt_div_mod_floor", "nt_is_multiple_of", "nt_checked_div", "nt_checked_rem",
         "nt_checked_div_euclid", "nt_checked_rem_euclid", "nt_div_euclid", "nt_rem_euclid"]
-UN = ["is_even", "is_odd", "nt_checked_neg", "nt_wrapping_neg", "nt_count_ones", "nt_count_zeros", "nt_leading_zeros",
+UN = ["nt_is_even", "nt_is_odd", "nt_checked_neg", "nt_wrapping_neg", "nt_count_ones", "nt_count_zeros", "nt_leading_zeros",
       "nt_trailing_zeros", "nt_swap_bytes", "nt_to_be", "nt_to_le", "nt_is_zero", "nt_is_one"]
 SH = ["nt_rotate_left", "nt_rotate_right", "nt_unsigned_shl", "nt_unsigned_shr", "nt_signed_shl", "nt_signed_shr"]
 
@@ -83,9 +83,11 @@ def gen(rng, tier):
             for s in "ui":
                 sg = s == "i"
                 t, a, b = gcd_pair(rng, w, n, sg)
-                yield f"gcd {s}{cfg} {hx(a)} {hx(b)}", t
+                for mode in ("dbg", "rel"):
+                    yield f"nt_gcd {s}{cfg} {mode} {hx(a)} {hx(b)}", t
                 t, a, b = gcd_pair(rng, w, n, sg)
-                yield f"lcm {s}{cfg} {hx(a)} {hx(b)}", t
+                for mode in ("dbg", "rel"):
+                    yield f"nt_lcm {s}{cfg} {mode} {hx(a)} {hx(b)}", t
                 for op in DIVS:
                     t, a, b = div_pair(rng, w, n, sg)
                     yield f"{op} {s}{cfg} {hx(a)} {hx(b)}", t
@@ -101,13 +103,13 @@ def gen(rng, tier):
                     yield f"{op} {s}{cfg} {hx(a)} {k}", t
                 t, x, deg = root_case(rng, w, n, sg)
                 for mode in ("dbg", "rel"):
-                    yield f"nth_root {s}{cfg} {mode} {hx(x)} {deg}", t
+                    yield f"nt_nth_root {s}{cfg} {mode} {hx(x)} {deg}", t
                 t, x, _ = root_case(rng, w, n, False)
                 for mode in ("dbg", "rel"):
-                    yield f"sqrt {s}{cfg} {mode} {hx(x)}", t
+                    yield f"nt_sqrt {s}{cfg} {mode} {hx(x)}", t
                 t, x, _ = root_case(rng, w, n, sg)
                 for mode in ("dbg", "rel"):
-                    yield f"cbrt {s}{cfg} {mode} {hx(x)}", t
+                    yield f"nt_cbrt {s}{cfg} {mode} {hx(x)}", t
                 t, a, e = pow_case(rng, w, n, sg)
                 t2, b2, c2 = pair(rng, w, n)
                 for mode in ("dbg", "rel"):
